@@ -71,7 +71,8 @@ def gen_cmp(rnd, n):
                 o = ot(kind, [val(False)])
             if not arr:
                 ph["f"] = [hx(rnd.choice([0.0, 1e-20, -1e-20, 2.0 ** -60, -(2.0 ** -55), f]))]
-        out.append({"ev": "cmp", "op": op, "ord": rnd.choice(["po", "op"]), "ph": ph, "ot": o})
+        out.append({"ev": "cmp", "op": op, "ord": rnd.choice(["po", "op"]), "ph": ph, "ot": o,
+                    "form": rnd.choice(["operator", "ufunc"])})
     # imaginary phases: equality only
     for _ in range(max(2, n // 25)):
         c, f = count(rnd), rnd.uniform(-0.5, 0.5)
